@@ -162,7 +162,7 @@ func (s *session) evalCall(fc *FuncCall, sc *scope) (Value, error) {
 				return cur.rowNumber, nil
 			}
 		}
-		return nil, pgError("window functions are not allowed here")
+		return nil, unsupported("window function outside the select list of an ungrouped query")
 	}
 	if s.isAggregate(fc) {
 		for cur := sc; cur != nil; cur = cur.outer {
